@@ -6,6 +6,7 @@ CONSTANTS
   Keys = {1, 2, 3, 4, 5, 6, 7, 8}
   Vals = {1, 2, 3}
   MaxChain = 7
+  DevStaleStamp = FALSE
   DevF7 = FALSE
   MaxWrites = 0
   MaxReopens = 0
